@@ -422,3 +422,50 @@ def job_aliasing(job):
             out['samples'].append({'config': cfg, 'operands': [o for o, _ in operands], 'calls': sorted(calls)})
     out['distinct'] = n
     return out
+
+
+# ------------------------------------------------------------------ C04 / C15: grade selection on every storage layout
+def job_gradesel(job):
+    """a.grade(G) / a.grade(*G) returns exactly the stored coefficients of the blades whose grade (number of set bits of the key)
+    is in G, for sparse, permuted, dense-canonical, dense-binary, dense-reversed and zero-containing layouts."""
+    rng = random.Random(job.get('seed', 0))
+    out = {'evaluations': 0, 'failures': [], 'samples': [], 'configs': 0}
+    for cfg in job['configs']:
+        try:
+            alg = make_algebra(cfg)
+        except Exception as _e:
+            out['failures'].append({'config': cfg, 'what': 'constructing an admissible algebra raised', 'error': type(_e).__name__ + ': ' + str(_e)[:150]})
+            continue
+        out['configs'] += 1
+        d, N = alg.d, 2 ** alg.d
+        canon = list(alg.canon2bin.values())
+        layouts = [('dense-canonical', canon), ('dense-binary', list(range(N))), ('dense-reversed', canon[::-1]),
+                   ('dense-shuffled', rng.sample(canon, N))]
+        for _ in range(cfg.get('random', 4)):
+            layouts.append(('sparse', list(rand_keys(rng, alg, 'sparse') or (1,))))
+            layouts.append(('permuted', list(rand_keys(rng, alg, 'perm') or (1,))))
+        subsets = [g for r_ in range(1, d + 2) for g in itertools.combinations(range(d + 1), r_)]
+        if len(subsets) > 24:
+            subsets = subsets[:d + 1] + rng.sample(subsets[d + 1:], 24 - d - 1)
+        nbad = 0
+        for kind, keys in layouts:
+            vals = [F(rng.randint(-9, 9) or 1, rng.randint(1, 3)) + i for i, _ in enumerate(keys)]      # pairwise distinct
+            x = mv_from(alg, keys, vals)
+            stored = dict(zip(keys, vals))
+            for G in subsets:
+                want = {k: v for k, v in stored.items() if bin(k).count('1') in G}
+                for form, call in (('grade(*G)', lambda: x.grade(*G)), ('grade(G)', lambda: x.grade(G))):
+                    out['evaluations'] += 1
+                    r = _safe(call)
+                    got = dict(zip(r[1].keys(), r[1].values())) if r[0] == 'value' else r[1]
+                    if got != want:
+                        nbad += 1
+                        if nbad <= 3:
+                            out['failures'].append({'config': cfg, 'what': 'grade() does not return exactly the stored coefficients of the requested grades',
+                                                    'layout': kind, 'keys': list(keys), 'grades': list(G), 'form': form,
+                                                    'got': str(got)[:200], 'expected': str(want)[:200]})
+            if list(x.keys()) != list(keys) or list(x.values()) != vals:
+                out['failures'].append({'config': cfg, 'what': 'grade() changed its operand', 'layout': kind})
+        if len(out['samples']) < 3:
+            out['samples'].append({'config': cfg, 'layouts': [k for k, _ in layouts], 'grade_subsets': len(subsets)})
+    return out
